@@ -516,12 +516,22 @@ def _check_incremental(sig, prior, initial, ops, rev):
             jp = _judge_result(sem, prior, plain, gpz, fm, fp)
             for k, e, o in jm:
                 bad(k, step, e, o, tags)
-
-            def beh(r, j):
-                return "none" if r is None else ("rejecting" if any(k == "not-accepted" for k, _, _ in j) else "accepting")
-
-            if beh(with_m, jm) != beh(plain, jp):
-                bad("incremental-mismatch", step, {"c_revision without model": beh(plain, jp)}, {"c_revision with model": beh(with_m, jm)}, tags)
+            if [k for k, _, _ in jp] != [k for k, _, _ in jm]:
+                # the run without the model is judged by the same rules (evaluations counts it as well)
+                for k, e, o in jp:
+                    bad(k, step, e, o, tags[:-1] + ["no-model"])
+            evals += 1
+            # "equal in acceptance behaviour": both return nothing or both return parameters; whether returned
+            # parameters make k* accept is judged above for each of the two runs on its own (a result that depends
+            # on the solver's arbitrary model must not be reported as a difference between the two paths)
+            if (with_m is None) != (plain is None):
+                bad(
+                    "incremental-mismatch",
+                    step,
+                    {"c_revision without model": "None" if plain is None else "parameters"},
+                    {"c_revision with model": "None" if with_m is None else "parameters"},
+                    tags,
+                )
     return out, evals
 
 
@@ -696,7 +706,7 @@ def _cases(rng, tier):
             tr = _gen_list(rng, ["a", "b"], clean=0.5)
             cases.append((["a", "b"], prior, tr, _gen_cfgs(rng, [t[0] for t in tr]), True))
     # --- 3..5 atoms: seeded random priors with ranks 0..4 (all-zero prior included)
-    plan = {3: 1200, 4: 800, 5: 400} if thorough else {3: 70, 4: 45, 5: 24}
+    plan = {3: 800, 4: 500, 5: 250} if thorough else {3: 70, 4: 45, 5: 24}
     for n, cnt in plan.items():
         atoms = ATOMS[:n]
         for j in range(cnt):
@@ -710,7 +720,7 @@ def _inc_cases(rng, tier):
     thorough = tier == "thorough"
     maxlen = 8 if thorough else 6
     out = []
-    plan = {1: 20, 2: 200, 3: 300, 4: 120} if thorough else {1: 6, 2: 30, 3: 34, 4: 10}
+    plan = {1: 20, 2: 150, 3: 200, 4: 80} if thorough else {1: 6, 2: 30, 3: 34, 4: 10}
     for n, cnt in plan.items():
         atoms = ATOMS[:n]
         for _ in range(cnt):
